@@ -147,6 +147,32 @@ def computed_families(tier):
     return out
 
 
+def single_operand_families():
+    """Operators with exactly one operand (only JSON / protobuf can say that): every operator node is drawn, also when it has one child -
+    relations defined as union / intersection of one direct assignment, computed userset, tuple-to-userset or of another one-operand
+    operator, and two relations that refer to each other through one-operand unions (a cycle, but not one of pure computed usersets)."""
+    out = []
+    this = {"k": "this"}
+    user = {"t": "user", "kind": "type", "rel": "", "cond": ""}
+    par = {"t": "doc", "kind": "type", "rel": "", "cond": ""}
+    leaves = [("t", this), ("c", {"k": "cu", "rel": "a"}), ("u", {"k": "ttu", "rel": "a", "ts": "p"})]
+    k = 0
+    for op1 in ("union", "inter"):
+        for ln, leaf in leaves:
+            for op2 in (None, "union", "inter"):
+                inner = {"k": op1, "ch": [leaf]}
+                rw = inner if op2 is None else {"k": op2, "ch": [inner]}
+                rels = [{"name": "a", "rw": this, "restr": [user]}, {"name": "p", "rw": this, "restr": [par]},
+                        {"name": "x", "rw": rw, "restr": [user] if ln == "t" else []},
+                        {"name": "y", "rw": {"k": "union", "ch": [{"k": "cu", "rel": "x"}, {"k": op1, "ch": [{"k": "cu", "rel": "a"}]}]}, "restr": []}]
+                out.append({"id": "so%d" % k, "m": {"types": [{"name": "doc", "rels": rels}, {"name": "user", "rels": []}]}})
+                k += 1
+        rels = [{"name": "x", "rw": {"k": op1, "ch": [{"k": "cu", "rel": "y"}]}, "restr": []}, {"name": "y", "rw": {"k": op1, "ch": [{"k": "cu", "rel": "x"}]}, "restr": []},
+                {"name": "z", "rw": {"k": "cu", "rel": "x"}, "restr": []}]
+        out.append({"id": "soc%s" % op1, "m": {"types": [{"name": "doc", "rels": rels}, {"name": "user", "rels": []}]}})
+    return out
+
+
 def run(pid, tier):
     chk = Check(pid, tier, "model_checking")
     sc = Scratch()
@@ -163,13 +189,14 @@ def run(pid, tier):
         run_harness(binary, ["wg-gen", "-out", gen, "-n", str(150 if tier == "quick" else 1500), "-seed", str(SEED)])
         models += read_ndjson(gen)
         models += computed_families(tier)
+        models += single_operand_families()
         calls = 3 if tier == "quick" else 4
         res = run_models(chk, binary, sc, models, calls, 20 if tier == "quick" else 50, "pg")
         log("TLC: %d models, %d states of the API automaton (Build ; Reverse^%d), %.0fs" % (len(models), res.distinct, calls, res.wall))
         chk.cov.update(states=res.distinct, transitions=res.generated, traces_validated_against_impl=chk.cov.get("states_compared", 0),
                        evaluations=chk.cov.get("states_compared", 0), distinct_nontrivial=len({json.dumps(m["m"], sort_keys=True) for m in models}),
                        rule="models = shape-menu universe (frame + 2 free relations) + seeded random models of 1-3 object types + every definition of 4 relations as direct / computed userset of one of them "
-                            "(also under names differing only in case); per model the call sequences Build ; Reverse^k, k <= %d; "
+                            "(also under names differing only in case) + operators with a single operand; per model the call sequences Build ; Reverse^k, k <= %d; "
                             "all path queries between public labels in every state; 20-50 repeated builds and double reversals for DOT; distinct by abstract model" % calls)
         for m in models[:1] + models[-1:]:
             chk.sample({"model": m["m"]})
